@@ -32,10 +32,10 @@ def req_pieces(kind: str, i: int) -> list:
     pay = h1gen.payload(i)
     t = b"http://" + HOST + b"/m%d" % i
     common = b"Host: " + HOST + b"\r\nX-Id: %d\r\n" % i
-    if kind in ("get", "head", "crlf_get"):
+    if kind in ("get", "head", "crlf_get", "crlf2_get", "lf3_get"):
         m = b"HEAD" if kind == "head" else b"GET"
         line = m + b" " + t + b" HTTP/1.1\r\n"
-        pre = [("n", b"\r\n")] if kind == "crlf_get" else []
+        pre = {"crlf_get": [("n", b"\r\n")], "crlf2_get": [("n", b"\r\n")] * 2, "lf3_get": [("n", b"\n")] * 3}.get(kind, [])
         return pre + [("h", line[:9]), ("h", line[9:] + common + b"\r"), ("H", b"\n")]
     if kind in ("post_cl", "expect", "bad"):
         extra = b""
@@ -348,6 +348,10 @@ SCN_QUICK = (
     (EX("expect", "cl"), EX("get", "eof")),
     (EX("post_cl", "cl"), EX("crlf_get", "cl")),
     (EX("crlf_get", "cl"),),
+    (EX("crlf2_get", "cl"),),
+    (EX("post_cl", "cl"), EX("crlf2_get", "chunked")),
+    (EX("lf3_get", "cl"),),
+    (EX("get", "cl"), EX("lf3_get", "cl")),
     (EX("get", "bad"), EX("get", "cl")),
     (EX("post_cl", "cl"), EX("bad", "cl")),
     (EX("post_chunked", "eof"),),
@@ -361,7 +365,7 @@ SCN_THOROUGH = SCN_QUICK + (
 
 
 def feat_of(scn) -> str:
-    return "blank_line" if any(e["req"] == "crlf_get" for e in scn) else "plain"
+    return "blank_line" if any(e["req"] in ("crlf_get", "crlf2_get", "lf3_get") for e in scn) else "plain"
 
 
 def streams_of(scn) -> dict:
@@ -480,7 +484,8 @@ class Check(core.PropertyCheck):
                     yield core.Scenario(self.concretise(b), predicted=core.predicted_events(b), source="simulate")
         # plain exhaustion on concrete bytes: every single cut, one-byte segments, pairs of cuts, random interleavings
         rng = random.Random(ctx.seed + 2)
-        fixed = [SCN_QUICK[0], SCN_QUICK[1], SCN_QUICK[2], SCN_QUICK[4]] if ctx.quick else list(SCN_THOROUGH)
+        fixed = ([SCN_QUICK[0], SCN_QUICK[2], SCN_QUICK[4], SCN_QUICK[6], SCN_QUICK[7], SCN_QUICK[8], SCN_QUICK[9]]
+                 if ctx.quick else list(SCN_THOROUGH))
         for scn in fixed:
             base = streams_of([dict(e) for e in scn])
             base["unit"] = "byte"
